@@ -590,7 +590,7 @@ def ops_sx126x():
                 c="sx126x_write_buffer(CTX, 0, pl, (uint8_t)n);", tx=[T(0x0E, 0, payload=True)]))
     for var, radio, hp in (("sx1262", "radio_1262()", True), ("sx1261", "radio_1261()", False), ("stm32wl_hp", "radio_wl(true)", True), ("stm32wl_lp", "radio_wl(false)", False)):
         clamp = [R(0x1D, 0x08, 0xD8, rd=2), T(0x0D, 0x08, 0xD8, "m(0, 4) | 0x1E")] if hp else []
-        O.append(op("tx_power_" + var, params=[("req", "u32"), ("prep", "bool")], radio=radio, free=["duty", "hpmax", "pwr"],
+        O.append(op("tx_power_" + var, params=[("req", "u32"), ("prep", "bool")], radio=radio, free=["duty", "hpmax", "pwr"], tier="quick" if var in ("sx1262", "sx1261") else "thorough",
                     rust="r.set_tx_power_and_ramp_time(req as i32, None, prep != 0)", cost=60,
                     encodes="Sx126x::set_tx_power_and_ramp_time, set_pa_config (framing; the table values are C17)",
                     note="the reference leaves paDutyCycle/hpMax/power to the board support package: those three bytes are free on the Rust side (their values are the subject of C17), deviceSel/paLut/ramp/TX clamp are compared",
@@ -604,7 +604,7 @@ def ops_sx126x():
                 c="static const uint16_t MASKS[5] = { 0xFFFF, SX126X_IRQ_TX_DONE | SX126X_IRQ_TIMEOUT, 0xFFFF, SX126X_IRQ_CAD_DONE | SX126X_IRQ_CAD_DETECTED, SX126X_IRQ_NONE };\nsx126x_set_dio_irq_params(CTX, MASKS[mode], MASKS[mode], 0, 0);",
                 tx=[T(0x08, "mask >> 8", "mask", "mask >> 8", "mask", 0, 0, 0, 0)]))
     O.append(op("clear_irq", rust="r.clear_irq_status()", c="sx126x_clear_irq_status(CTX, 0xFFFF);", tx=[T(0x02, 0xFF, 0xFF)]))
-    O.append(op("rx_continuous", params=[("boost", "bool")], radio=RADIO_BOOST, rust="r.do_rx(RxMode::Continuous)",
+    O.append(op("rx_continuous", params=[("boost", "bool")], radio=RADIO_BOOST, rust="r.do_rx(RxMode::Continuous)", tier="thorough",
                 encodes="Sx126x::do_rx, set_lora_symbol_num_timeout", c=RX_C % ("0", "0xFFFFFF"),
                 tx=[T(0x9F, 1), T(0xA0, 0), T(0x0D, 0x08, 0xAC, "0x96 if boost else 0x94"), T(0x82, 0xFF, 0xFF, 0xFF)]))
     O.append(op("rx_single", params=[("n", "range(1,65535)"), ("boost", "bool")], radio=RADIO_BOOST, rust="r.do_rx(RxMode::Single(n as u16))", lets=SYMB_LETS, cost=60,
@@ -613,7 +613,7 @@ def ops_sx126x():
                 c=RX_C % ("n > 255 ? 255 : n", "0"),
                 tx=[T(0x9F, 1), T(0xA0, "mant << (2 * exp + 1)"), T(0x0D, 0x07, 0x06, "exp + (mant << 3)"),
                     T(0x0D, 0x08, 0xAC, "0x96 if boost else 0x94"), T(0x82, 0, 0, 0)]))
-    O.append(op("rx_single_zero", params=[("boost", "bool")], radio=RADIO_BOOST, rust="r.do_rx(RxMode::Single(0))", c=RX_C % ("0", "0"),
+    O.append(op("rx_single_zero", params=[("boost", "bool")], radio=RADIO_BOOST, rust="r.do_rx(RxMode::Single(0))", c=RX_C % ("0", "0"), tier="thorough",
                 tx=[T(0x9F, 1), T(0xA0, 0), T(0x0D, 0x08, 0xAC, "0x96 if boost else 0x94"), T(0x82, 0, 0, 0)]))
     O.append(op("tx_start", rust="r.do_tx()", c="sx126x_set_tx(CTX, 0);", tx=[T(0x83, 0, 0, 0)]))
     O.append(op("tx_cw", rust="r.set_tx_continuous_wave_mode()", c="sx126x_set_tx_cw(CTX);", tx=[T(0xD1)]))
@@ -700,7 +700,7 @@ def ops_sx1276():
                    note="the reference takes the clamped power and the +20 dBm switch from its caller (passed here as the Rust driver chooses them: clamp to 2..=20, PaDac above 17 dBm); MaxPower (RegPaConfig bits 6:4) is unused with PA_BOOST and not compared; the over-current trim (RegOcp) is set by the Rust driver only; reserved bits of RegPaRamp/RegPaDac assumed at their reset values (the reference keeps them, the Rust driver writes them)",
                    c="sx127x_pa_cfg_params_t pc = { .pa_select = SX127X_PA_SELECT_BOOST, .is_20_dbm_output_on = hi != 0 };\nsx127x_set_pa_cfg(&RADIO, &pc);\nsx127x_set_tx_params(&RADIO, (int8_t)((int)c - 128), prep ? SX127X_RAMP_40_US : SX127X_RAMP_250_US);",
                    regs={0x09: ("0x80 | opw", 0x8F), 0x0A: "9 if prep else 4", 0x4D: "0x87 if hi else 0x84"}, free_rust=[0x0B]))
-    O.append(regop("tx_power_rfo", params=[("q", "u8"), ("prep", "bool")], radio=RADIO_1276 % "false",
+    O.append(regop("tx_power_rfo", params=[("q", "u8"), ("prep", "bool")], radio=RADIO_1276 % "false", tier="thorough",
                    lets=[("c", "124 if q < 124 else (142 if q > 142 else q)"), ("pos", "1 if c > 128 else 0"), ("opw", "((c - 128) if pos else (c - 124)) & 0x0F")],
                    assume_init=["(r(0x0A) & 0xF0) == 0", "(r(0x4D) & 0xF8) == 0x80"],
                    rust="r.set_tx_power_and_ramp_time(q as i32 - 128, None, prep != 0)",
@@ -708,9 +708,11 @@ def ops_sx1276():
                    note="as tx_power_boost; clamp to -4..=14 dBm, MaxPower 7 above 0 dBm and 0 otherwise",
                    c="sx127x_pa_cfg_params_t pc = { .pa_select = SX127X_PA_SELECT_RFO, .is_20_dbm_output_on = false };\nsx127x_set_pa_cfg(&RADIO, &pc);\nsx127x_set_tx_params(&RADIO, (int8_t)((int)c - 128), prep ? SX127X_RAMP_40_US : SX127X_RAMP_250_US);",
                    regs={0x09: "((7 if pos else 0) << 4) | opw", 0x0A: "9 if prep else 4", 0x4D: "0x84"}, free_rust=[0x0B]))
-    O.append(mod_params_1276("mod_params_bw125", 7))
-    O.append(mod_params_1276("mod_params_bw500", 9))
-    O.append(mod_params_1276("mod_params_bw7", 0))
+    # one register access through the async driver stack costs ~200 k SAT variables: the 17-access
+    # set_modulation_params takes 10-15 minutes per bandwidth class, beyond the quick tier's budget
+    O.append(mod_params_1276("mod_params_bw125", 7, tier="thorough"))
+    O.append(mod_params_1276("mod_params_bw500", 9, tier="thorough"))
+    O.append(mod_params_1276("mod_params_bw7", 0, tier="thorough"))
     O.append(mod_params_1276("mod_params_any_bw", None, tier="thorough"))
     O.append(regop("pkt_params", params=[("pre", "u16"), ("imp", "bool"), ("plen", "u8"), ("crc", "bool"), ("iq", "bool")], radio=RADIO_1276 % "kani::any()", cost=300,
                    rust_pre="let pp = PacketParams { preamble_length: pre as u16, implicit_header: imp != 0, payload_length: plen as u8, crc_on: crc != 0, iq_inverted: iq != 0 };",
@@ -724,13 +726,13 @@ def ops_sx1276():
                    note="the reference zeroes RegFifoTxBaseAddr (0x0E) here, the Rust driver in set_tx_rx_buffer_base_address: not compared on the reference side",
                    c="RADIO.lora_pkt_params.pld_len_in_bytes = (uint8_t)n;\nsx127x_write_buffer(&RADIO, 0, pl, (uint8_t)n);",
                    regs={0x0D: "0", 0x22: "n"}, free_c=[0x0E]))
-    O.append(regop("irq_tx_start", radio=RADIO_1276 % "kani::any()", cost=200,
+    O.append(regop("irq_tx_start", radio=RADIO_1276 % "kani::any()", cost=200, tier="thorough",
                    rust=["r.set_irq_params(Some(RadioMode::Transmit))", "r.do_tx()"], encodes="Sx127x::set_irq_params (Transmit), do_tx",
                    assume_init=["r(0x40) == 0", "r(0x41) == 0"],
                    note="IRQ mask + DIO mapping + TX start: the reference keeps the DIO mapping in a shadow copy (all zero after selecting LoRa) and pushes it in set_tx, the Rust driver read-modify-writes RegDioMapping1 in set_irq_params: compared for the shadow-consistent prior content 0; the reference also pushes the IQ registers here (not compared on its side)",
                    c="sx127x_set_irq_mask(&RADIO, SX127X_IRQ_TX_DONE);\nsx127x_set_tx(&RADIO);",
                    regs={0x11: "0xF7", 0x40: "0x40", 0x01: "0x83"}, free_c=[0x33, 0x3B]))
-    O.append(regop("irq_cad_start", radio=RADIO_1276 % "kani::any()", cost=200,
+    O.append(regop("irq_cad_start", radio=RADIO_1276 % "kani::any()", cost=200, tier="thorough",
                    rust_pre="let mp = ModulationParams { spreading_factor: SpreadingFactor::_7, bandwidth: Bandwidth::_125KHz, coding_rate: CodingRate::_4_5, low_data_rate_optimize: 0, frequency_in_hz: 868_100_000 };",
                    rust=["r.set_irq_params(Some(RadioMode::ChannelActivityDetection))", "r.do_cad(&mp)"], encodes="Sx127x::set_irq_params (CAD), do_cad",
                    assume_init=["r(0x40) == 0", "r(0x41) == 0"],
@@ -780,7 +782,7 @@ def ops_sx1272():
                    note="the reference takes the clamped power and the +20 dBm switch from its caller (passed as the Rust driver chooses them: above 17 dBm PaDac on and clamp to 5..=20, else clamp to 2..=17); RegPaConfig bits 6:4 are unused on the SX1272 and not compared; reserved bits of RegPaRamp (LowPnTxPllOff = 1) and RegPaDac assumed at their reset values",
                    c="sx127x_pa_cfg_params_t pc = { .pa_select = SX127X_PA_SELECT_BOOST, .is_20_dbm_output_on = hi != 0 };\nsx127x_set_pa_cfg(&RADIO, &pc);\nsx127x_set_tx_params(&RADIO, (int8_t)((int)c - 128), prep ? SX127X_RAMP_40_US : SX127X_RAMP_250_US);",
                    regs={0x09: ("0x80 | opw", 0x8F), 0x0A: "0x10 | (9 if prep else 4)", 0x5A: "0x87 if hi else 0x84"}))
-    O.append(regop("tx_power_rfo", params=[("q", "u8"), ("prep", "bool")], radio=RADIO_1272 % "false",
+    O.append(regop("tx_power_rfo", params=[("q", "u8"), ("prep", "bool")], radio=RADIO_1272 % "false", tier="thorough",
                    lets=[("c", "127 if q < 127 else (142 if q > 142 else q)"), ("opw", "(c - 127) & 0x0F")],
                    assume_init=["(r(0x0A) & 0xF0) == 0x10", "(r(0x5A) & 0xF8) == 0x80"],
                    rust="r.set_tx_power_and_ramp_time(q as i32 - 128, None, prep != 0)",
